@@ -132,3 +132,163 @@ Fixpoint write_tree (fuel : nat) (w : N) (t : tree) (ls : list wlevel) : list wl
 Example write_example :
   write_tree 3 7%N (Node [(1%N, Node []); (2%N, Node [])]) [([], []); ([], [])] = [([7%N], [0%nat]); ([2%N; 1%N], [0%nat; 0%nat])].
 Proof. reflexivity. Qed.
+
+(* all unigrams in id order, each followed by its subtree *)
+Definition write_all (fuel : nat) (roots : list (N * tree)) (ls : list wlevel) : list wlevel :=
+  fold_left (fun acc ct => write_tree fuel (fst ct) (snd ct) acc) roots ls.
+
+(* FinishedLoading: the end pointer of every level is the final size of the level below *)
+Fixpoint finish_levels (ls : list wlevel) : list level :=
+  match ls with
+  | [] => []
+  | (ws, nx) :: below => {| lv_words := rev ws; lv_next := rev (size_below below :: nx) |} :: finish_levels below
+  end.
+
+(* invariant of the levels under construction: as many pointers as records; pointers (newest first) never increase
+   towards the past and the newest is at most the current size of the level below *)
+Fixpoint desc_bound (nx : list nat) (bound : nat) : Prop :=
+  match nx with [] => True | x :: r => (x <= bound)%nat /\ desc_bound r x end.
+Fixpoint winv (ls : list wlevel) : Prop :=
+  match ls with
+  | [] => True
+  | (ws, nx) :: below => length nx = length ws /\ desc_bound nx (size_below below) /\ winv below
+  end.
+(* sizes only grow, the number of levels is kept *)
+Fixpoint grows (a b : list wlevel) : Prop :=
+  match a, b with
+  | [], [] => True
+  | (wa, _) :: ra, (wb, _) :: rb => (length wa <= length wb)%nat /\ grows ra rb
+  | _, _ => False
+  end.
+
+Lemma grows_refl : forall a, grows a a.
+Proof. induction a as [|[w n] r IH]; simpl; auto. Qed.
+Lemma grows_trans : forall a b c, grows a b -> grows b c -> grows a c.
+Proof.
+  induction a as [|[wa na] ra IH]; intros [|[wb nb] rb] [|[wc nc] rc] H1 H2; simpl in *; try tauto.
+  destruct H1, H2. split; [lia|eauto].
+Qed.
+Lemma grows_size_below : forall a b, grows a b -> (size_below a <= size_below b)%nat.
+Proof. intros [|[wa na] ra] [|[wb nb] rb] H; simpl in *; try tauto; lia. Qed.
+
+Lemma desc_bound_weaken : forall nx b b', desc_bound nx b -> (b <= b')%nat -> desc_bound nx b'.
+Proof. intros [|x r] b b' H L; simpl in *; [exact I|]. destruct H. split; [lia|assumption]. Qed.
+
+Lemma write_tree_inv : forall fuel w t ls, winv ls -> winv (write_tree fuel w t ls) /\ grows ls (write_tree fuel w t ls).
+Proof.
+  induction fuel as [|f IH]; intros w t ls W; simpl; [split; [exact W|apply grows_refl]|].
+  destruct ls as [|[ws nx] below]; [split; exact I|]. destruct t as [children].
+  simpl in W. destruct W as [Wl [Wd Wb]].
+  (* the children, one after the other, into the levels below *)
+  assert (F : forall cs acc, winv acc ->
+              winv (fold_left (fun acc ct => write_tree f (fst ct) (snd ct) acc) cs acc) /\
+              grows acc (fold_left (fun acc ct => write_tree f (fst ct) (snd ct) acc) cs acc)).
+  { induction cs as [|[cw ct] cs IHc]; intros acc Wa; simpl; [split; [exact Wa|apply grows_refl]|].
+    destruct (IH cw ct acc Wa) as [W1 G1]. destruct (IHc _ W1) as [W2 G2]. split; [exact W2|eapply grows_trans; eauto]. }
+  destruct (F children below Wb) as [Wb' Gb]. split.
+  - simpl. split; [simpl; lia|]. split; [|exact Wb']. simpl. split; [apply grows_size_below; exact Gb|].
+    exact Wd.
+  - simpl. split; [simpl; lia|exact Gb].
+Qed.
+
+Lemma write_all_inv : forall fuel roots ls, winv ls -> winv (write_all fuel roots ls).
+Proof.
+  intros fuel roots. unfold write_all. induction roots as [|[w t] r IH]; intros ls W; simpl; [exact W|].
+  apply IH. apply write_tree_inv. exact W.
+Qed.
+
+(* from the invariant to the query-side invariant *)
+Lemma desc_bound_all_le : forall nx b, desc_bound nx b -> forall j, (j < length nx)%nat -> (nth j nx 0 <= b)%nat.
+Proof.
+  induction nx as [|x r IH]; intros b H j L; simpl in *; [lia|]. destruct H as [H1 H2].
+  destruct j as [|j]; [exact H1|]. specialize (IH x H2 j ltac:(lia)). lia.
+Qed.
+Lemma desc_bound_step : forall nx b, desc_bound nx b -> forall j, (S j < length nx)%nat -> (nth (S j) nx 0 <= nth j nx 0)%nat.
+Proof.
+  induction nx as [|x r IH]; intros b H j L; simpl in *; [lia|]. destruct H as [H1 H2].
+  destruct j as [|j].
+  - destruct r as [|y r']; simpl in *; [lia|]. destruct H2. assumption.
+  - apply (IH x H2 j). lia.
+Qed.
+
+Lemma ptrs_ok_rev : forall nx b, desc_bound nx b -> ptrs_ok (rev (b :: nx)) b.
+Proof.
+  intros nx b H i L. rewrite rev_length in L. simpl in L.
+  assert (D : desc_bound (b :: nx) b) by (simpl; split; [lia|exact H]).
+  rewrite !rev_nth by (simpl; lia). simpl length.
+  replace (S (length nx) - S i)%nat with (length nx - i)%nat by lia.
+  replace (S (length nx) - S (S i))%nat with (length nx - S i)%nat by lia.
+  split.
+  - pose proof (desc_bound_step (b :: nx) b D (length nx - S i)%nat ltac:(simpl; lia)) as S1.
+    replace (S (length nx - S i)) with (length nx - i)%nat in S1 by lia. exact S1.
+  - apply (desc_bound_all_le (b :: nx) b D). simpl. lia.
+Qed.
+
+Lemma finish_levels_ok : forall ls, winv ls -> levels_ok (finish_levels ls).
+Proof.
+  induction ls as [|[ws nx] below IH]; intros W; simpl; [exact I|].
+  simpl in W. destruct W as [Wl [Wd Wb]]. split; [|apply IH; exact Wb].
+  destruct below as [|[ws' nx'] below']; simpl; [exact I|]. split.
+  - rewrite app_length, !rev_length. simpl. lia.
+  - rewrite rev_length. apply (ptrs_ok_rev nx (length ws')). exact Wd.
+Qed.
+
+(* the writer's output, started from empty levels, satisfies the invariant the queries need *)
+Definition build (fuel : nat) (roots : list (N * tree)) (orders_below_unigram : nat) : list level :=
+  finish_levels (write_all fuel roots (repeat ([], []) (S orders_below_unigram))).
+
+Lemma winv_empty : forall n, winv (repeat ([], []) n).
+Proof. induction n as [|n IH]; simpl; [exact I|]. split; [reflexivity|]. split; [exact I|exact IH]. Qed.
+
+Lemma build_levels_ok : forall fuel roots k, levels_ok (build fuel roots k).
+Proof. intros fuel roots k. unfold build. apply finish_levels_ok. apply write_all_inv. apply winv_empty. Qed.
+
+(* the first level written plays the unigram array (word = id, next = begin of its bigrams); the others are t_levels *)
+Lemma trie_of_levels_ok : forall u M more, levels_ok (u :: M :: more) ->
+  trie_ok {| t_unigram_next := lv_next u; t_levels := M :: more |} (length (lv_words u)).
+Proof. intros u M more [[L P] R]. unfold trie_ok. simpl. auto. Qed.
+
+Lemma grows_length : forall a b, grows a b -> length a = length b.
+Proof. induction a as [|[wa na] ra IH]; intros [|[wb nb] rb] H; simpl in *; try tauto. destruct H. f_equal. auto. Qed.
+
+Lemma write_all_grows : forall fuel roots ls, winv ls -> grows ls (write_all fuel roots ls).
+Proof.
+  intros fuel roots. unfold write_all. induction roots as [|[w t] r IH]; intros ls W; simpl; [apply grows_refl|].
+  destruct (write_tree_inv fuel w t ls W) as [W1 G1]. eapply grows_trans; [exact G1|]. apply IH. exact W1.
+Qed.
+
+Lemma finish_levels_length : forall ls, length (finish_levels ls) = length ls.
+Proof. induction ls as [|[ws nx] below IH]; simpl; congruence. Qed.
+
+Lemma build_length : forall fuel roots k, length (build fuel roots k) = S k.
+Proof.
+  intros fuel roots k. unfold build. rewrite finish_levels_length.
+  rewrite <- (grows_length _ _ (write_all_grows fuel roots _ (winv_empty (S k)))). apply repeat_length.
+Qed.
+
+(* for a model of order >= 2 the writer's arrays satisfy the invariant the queries need *)
+Lemma build_trie_ok : forall fuel roots k, exists u M more,
+  build fuel roots (S k) = u :: M :: more /\
+  trie_ok {| t_unigram_next := lv_next u; t_levels := M :: more |} (length (lv_words u)).
+Proof.
+  intros fuel roots k. pose proof (build_length fuel roots (S k)) as L. pose proof (build_levels_ok fuel roots (S k)) as W.
+  destruct (build fuel roots (S k)) as [|u [|M more]]; simpl in L; try lia.
+  exists u, M, more. split; [reflexivity|]. apply trie_of_levels_ok. exact W.
+Qed.
+
+(* hence every in-vocabulary query on the arrays the writer produced stays in bounds *)
+Lemma built_queries_in_bounds : forall fuel roots k u M more ngram,
+  build fuel roots (S k) = u :: M :: more ->
+  (forall w, In w ngram -> (N.to_nat w < length (lv_words u))%nat) ->
+  Forall in_bounds (query {| t_unigram_next := lv_next u; t_levels := M :: more |} ngram).
+Proof.
+  intros fuel roots k u M more ngram E V. destruct (build_trie_ok fuel roots k) as [u' [M' [more' [E' T]]]].
+  rewrite E in E'. inversion E'; subst. eapply queries_in_bounds; eauto.
+Qed.
+
+Example build_example :
+  build 3 [(0%N, Node []); (1%N, Node [(2%N, Node [(1%N, Node [])]); (3%N, Node [])]); (2%N, Node [(1%N, Node [])])] 2 =
+  [ {| lv_words := [0%N; 1%N; 2%N]; lv_next := [0; 0; 2; 3]%nat |};
+    {| lv_words := [2%N; 3%N; 1%N]; lv_next := [0; 1; 1; 1]%nat |};
+    {| lv_words := [1%N]; lv_next := [0; 0]%nat |} ].
+Proof. reflexivity. Qed.
